@@ -106,4 +106,10 @@ Section Levels.
              | Some (t, l') => do r <- lv_all f l'; Ok (t :: r)
              end
     end.
+  (* the first n levels (fewer if the series ends earlier) *)
+  Fixpoint lv_prefix (n : nat) (l : lsource) : list (smap num) :=
+    match n with
+    | O => []
+    | S m => match lv_next l with None => [] | Some (t, l') => t :: lv_prefix m l' end
+    end.
 End Levels.
